@@ -199,6 +199,35 @@ def correspond(ctx):
     c.run()
     c.mirror_ref().run()
 
+    # --- Public_key(generator, point, verify) / VerifyingKey.from_public_point(point, curve, validate_point) ------
+    # point objects: d*G, INFINITY (F14 witness: InvalidPointError / MalformedPointError, formerly TypeError), off the curve,
+    # coordinates out of range (x + p, y - p), on toy curves (both generator classes), small named curves and SECP112r2 (h = 4:
+    # the extra `n * point == INFINITY` test)
+    from ecdsa import ecdsa as ecmod, ellipticcurve
+    from ecdsa.keys import VerifyingKey
+    c = ParCorr(ctx, "pubpoint")
+    specs = [(t.token(m), t.curve(m), 3e-5) for t in E.get_fixed_toys()[:4] for m in ("j", "a")]
+    specs += [(E.token(cv), cv, E.linecost(cv)) for cv in E.named_curves() if cv.name in ("SECP112r1", "SECP112r2", "SECP128r1", "NIST192p")]
+    for tok, cv, cost in specs:
+        n, pp = int(cv.order), int(cv.curve.p())
+        pts = [("inf", None)]
+        for d in (1, 2, n - 1, rng.randrange(1, n)):
+            Q = cv.generator * d
+            x, y = int(Q.x()), int(Q.y())
+            pts += [("d*G", (x, y)), ("off curve", (x, (y + 1) % pp)), ("x+p", (x + pp, y)), ("y-p", (x, y - pp)), ("y=p-y", (x, pp - y))]
+        for cls, xy in pts:
+            for v in (1, 0):
+                def mk(xy=xy, cv=cv, n=n):
+                    return ellipticcurve.INFINITY if xy is None else ellipticcurve.PointJacobi(cv.curve, xy[0], xy[1], 1, n)
+                st = "inf inf" if xy is None else "%d %d" % xy
+                heavy = cost if (xy is not None and v and cv.curve.cofactor() != 1) else min(cost, 1e-4)
+                c.add("ecdsa_pubcheck %s %s %d" % (tok, st, v),
+                      lambda mk=mk, cv=cv, v=v: E.showpt(ecmod.Public_key(cv.generator, mk(), bool(v)).point), "Public_key " + cls, heavy)
+                c.add("ecdsa_from_public_point %s %s %d" % (tok, st, v),
+                      lambda mk=mk, cv=cv, v=v: E.showpt(VerifyingKey.from_public_point(mk(), cv, validate_point=bool(v)).pubkey.point),
+                      "from_public_point " + cls, heavy)
+    c.run()
+
     # --- sign_digest on bytes-like digests (model: the underlying bytes) ------------------------------
     from ecdsa import util
     c = ParCorr(ctx, "sign_digest")
@@ -299,7 +328,19 @@ def case_sign_digest(i):
     return None if ok else {"observed": list(got[1]) if got[0] == "ok" else got[2], "expected": want}
 
 
-CASES = {"truncate": case_truncate, "sign": case_sign, "pubkey": case_pubkey, "sign_digest": case_sign_digest}
+def case_f14(i):
+    """F14 witness: the point at infinity offered as a public point is refused with the documented exceptions"""
+    from ecdsa import ecdsa as ecmod, ellipticcurve
+    from ecdsa.keys import VerifyingKey
+    cv, cp, _ = E.resolve_curve(i["curve"])
+    a = E.call(lambda: ecmod.Public_key(cv.generator, ellipticcurve.INFINITY, i["verify"]))
+    b = E.call(lambda: VerifyingKey.from_public_point(ellipticcurve.INFINITY, cv, validate_point=i["verify"]))
+    obs = [a[2] if a[0] == "err" else "returned", b[2] if b[0] == "err" else "returned"]
+    want = ["InvalidPointError", "MalformedPointError"]
+    return None if obs == want else {"observed": obs, "expected": want}
+
+
+CASES = {"f14": case_f14, "truncate": case_truncate, "sign": case_sign, "pubkey": case_pubkey, "sign_digest": case_sign_digest}
 
 
 def run_case(i):
@@ -319,6 +360,11 @@ def check(ctx, i, tag):
 
 def search(ctx):
     ctx.cov["search_evaluations"] = 0
+    # corpus: F14 (point at infinity as a public point) on a named curve and on toy curves of both generator classes
+    for spec in (E.curve_spec([c for c in E.named_curves() if c.name == "NIST256p"][0]), E.curve_spec(E.get_fixed_toys()[0], "j"),
+                 E.curve_spec(E.get_fixed_toys()[0], "a")):
+        for v in (True, False):
+            check(ctx, {"kind": "f14", "curve": spec, "verify": v}, "corpus F14 point at infinity as public point")
     for name, fn in (("search: truncation", search_truncate), ("search: toy exhaustive", search_toy), ("search: named curves", search_named)):
         with E.timed(ctx, name):
             fn(ctx)
